@@ -249,6 +249,25 @@ Proof.
     + apply VP. unfold post_necessary. now rewrite Hb, Hreq.
 Qed.
 
+(** the certificate clause: when the request's signature names a certificate (KeyInfo) and the provider has registered key
+    descriptors, an accepted request's KeyInfo contains a certificate registered for that provider *)
+Theorem accept_cert c : has_tag c TCertCheck = true -> passes c ->
+  exists a s, can_req = Some a /\ can_sp = Some s /\
+    (cert_check_necessary a s = true ->
+       check_certificate a s = true /\
+       exists g cs kd cert, a_signature a = Some g /\ sg_keyinfo g = Some cs /\ In kd (sp_keydescs s) /\ In cert kd /\ bmem cert cs = true).
+Proof.
+  intros Ht Hp. destruct (pass_at c _ Hp Ht) as (s1 & s1' & C1 & P1). cbn [step_sem] in P1.
+  destruct (l_req s1) as [a|] eqn:Ea; [|discriminate]. destruct (l_sp s1) as [s|] eqn:Es; [|discriminate].
+  exists a, s. split; [exact (cn_req _ C1 _ Ea)|]. split; [exact (cn_sp _ C1 _ Es)|].
+  intro Hn. rewrite Hn in P1. destruct (check_certificate a s) eqn:Ec; [|discriminate]. split; [reflexivity|].
+  unfold check_certificate in Ec. destruct (Nat.eqb (length (sp_keydescs s)) 0); [discriminate|].
+  destruct (a_signature a) as [g|]; [|discriminate]. destruct (sg_keyinfo g) as [cs|] eqn:Ek; [|discriminate].
+  destruct (Nat.eqb (length cs) 0); [discriminate|].
+  apply existsb_exists in Ec as (kd & Hkd & Ec). apply existsb_exists in Ec as (cert & Hcert & Ec).
+  exists g, cs, kd, cert. auto.
+Qed.
+
 (** what is persisted is what was verified *)
 Theorem persisted_values c : forall b st out, run c st0 = (b, Done st out) -> forall x, In x (created st) ->
   exists f a s, e_form = Some f /\ can_req = Some a /\ can_sp = Some s /\
